@@ -168,3 +168,65 @@ Section DriverPure.
     intros g' H. eapply Hgen; eauto. apply isolated_init.
   Qed.
 End DriverPure.
+
+(* ---------------------------------------------------------------- shapes of shared mutable state (instance 4) *)
+
+(* (a) buffer reuse: run 0 (options [1]) sees run 1's options [2;3] under 0,1,0,1 *)
+Lemma buffer_reuse_foreign_options :
+  exists sched g g',
+    grun bstep_shared sched g = Some g' /\ all_final bstep_shared g' = true /\
+    exists r r' s rs,
+      nth_error (snd g) 0 = Some r /\ nth_error (snd g') 0 = Some r' /\
+      solo_run bstep_shared 2 (fst g) r = Some (s, rs) /\
+      b_seen rs = Some (b_opts r) /\ b_seen r' <> Some (b_opts r).
+Proof.
+  exists [0; 1; 0; 1]%nat,
+         ([], [ {| b_pc := 0; b_opts := [1%N]; b_seen := None |}; {| b_pc := 0; b_opts := [2%N; 3%N]; b_seen := None |} ]).
+  eexists. split; [vm_compute; reflexivity|]. split; [vm_compute; reflexivity|].
+  do 4 eexists. repeat split; try (vm_compute; reflexivity). vm_compute. discriminate.
+Qed.
+
+(* (b) sticky limit: SEQUENTIAL schedule 0,0,1,1: run 1 (no override) uses run 0's limit 5, alone it uses 30 *)
+Lemma sticky_limit_inherited :
+  exists g g',
+    grun lstep_sticky [0; 0; 1; 1]%nat g = Some g' /\ all_final lstep_sticky g' = true /\
+    exists r r' s rs,
+      nth_error (snd g) 1 = Some r /\ nth_error (snd g') 1 = Some r' /\
+      solo_run lstep_sticky 2 (fst g) r = Some (s, rs) /\
+      l_used rs = Some 30%N /\ l_used r' = Some 5%N /\ fst g' <> fst g.
+Proof.
+  exists (30%N, [ {| l_pc := 0; l_override := Some 5%N; l_used := None |}; {| l_pc := 0; l_override := None; l_used := None |} ]).
+  eexists. split; [vm_compute; reflexivity|]. split; [vm_compute; reflexivity|].
+  do 4 eexists. repeat split; try (vm_compute; reflexivity). vm_compute. discriminate.
+Qed.
+
+(* the code as it is satisfies H1/H2 with view = the whole store, hence the theorem applies *)
+Lemma lstep_local_no_write : forall s r s' r', lstep_local s r = Some (s', r') -> (fun x : N => x) s' = (fun x : N => x) s.
+Proof.
+  unfold lstep_local; intros s r s' r' H.
+  destruct (N.eqb (l_pc r) 0); [inversion H; auto|]. destruct (N.eqb (l_pc r) 1); inversion H; auto.
+Qed.
+Lemma lstep_local_reads_view : forall s1 s2 r, (fun x : N => x) s1 = (fun x : N => x) s2 ->
+  option_map snd (lstep_local s1 r) = option_map snd (lstep_local s2 r).
+Proof. intros s1 s2 r H; simpl in H; subst; auto. Qed.
+
+Lemma lstep_local_uses_own_limit : forall sched g g',
+  grun lstep_local sched g = Some g' ->
+  fst g' = fst g /\
+  forall i r, nth_error (snd g) i = Some r -> l_pc r = 0%N ->
+  forall r', nth_error (snd g') i = Some r' -> final lstep_local (fst g') r' = true ->
+  l_used r' = Some (match l_override r with Some m => m | None => fst g end).
+Proof.
+  intros sched g g' H. split.
+  - exact (grun_view _ _ _ lstep_local (fun x : N => x) lstep_local_no_write sched g g' H).
+  - intros i r Hr Hpc r' Hr' Hf.
+    destruct (project_run _ _ _ lstep_local (fun x : N => x) lstep_local_no_write lstep_local_reads_view
+                sched g g' H i r Hr (fst g) eq_refl) as (sf & rf & A & B & _).
+    rewrite Hr' in B; inversion B; subst rf; clear B.
+    destruct r as [pc ov us]; simpl in *; subst pc.
+    remember (count i sched) as n. destruct n as [|[|[|n]]]; simpl in A.
+    + inversion A; subst r'. unfold final, lstep_local in Hf; simpl in Hf. discriminate.
+    + unfold lstep_local in A; simpl in A. inversion A; subst r'. unfold final, lstep_local in Hf; simpl in Hf. discriminate.
+    + unfold lstep_local in A; simpl in A. inversion A; subst r'. reflexivity.
+    + unfold lstep_local in A; simpl in A. discriminate.
+Qed.
